@@ -269,3 +269,28 @@ for _id, (_t, _l) in ROUND9.items():
         if _t:
             t = t + " + " + _t
         CLAIMED[_id] = (t, text + _l, note, ref)
+
+ROUND10 = {
+ "C01": ("", " Shared R12.8/R12.14 and R10.12."),
+ "C02": ("", " Shared R08.1/R08.2."),
+ "C03": ("provenance rule for TotalInputLines", " R03.15: TotalInputLines is the line of the last token, or 0 without tokens."),
+ "C04": ("", " R04.13 also reports a test of the size of a map that the loop over a map itself fills (a cap on the entries taken)."),
+ "C05": ("key-agreement rule for indexes", " R05.12: a map that match fills in one loop and consults in another is consulted under the keys it is filled under (same start, bound, step and key expression)."),
+ "C06": ("call-site agreement rule, verdict-dominance rule in the overlap filter", " R06.19: the call sites of a helper inside tokenizeStream agree on which integer arguments are variables. R06.20: a store into the retain flag of another candidate stands behind the current candidate's own verdict."),
+ "C10": ("guarded-index rule for byte buffers", " R10.13: a []byte is read at a computed index only behind a test of that index."),
+ "C11": ("flag-provenance rule through the call chain", " R11.16: the flag handed to cleanupToken traces back to the first bool parameter of tokenizeStream. R11.9 now counts loop depth by natural-loop membership."),
+ "C12": ("", " R12.8 accepts the directory test only. R12.14: no other property of the FileInfo decides whether an entry is collected. R12.10 also applies where the loader calls addDocument itself."),
+ "C13": ("compile-provenance rule for stored expressions, loop-variable capture rule", " R13.18: the regexp stored with a known value is the result of a Compile in the registering call. R13.19: no function literal that outlives its iteration binds a variable the loop assigns (the module's Go version gives one variable per loop)."),
+ "C14": ("deferred-release rule around function values, no-lazy-global rule", " R14.16: a lock that is held across a call of a function value is released by a deferred call. R14.17: outside package initialisation no package-level variable is assigned without a lock or sync.Once."),
+ "C15": ("sibling rule on granularities, no-retuning rule", " R15.20: every call of searchset.New passes the same granularity. R15.21: the root package stores into no field of stringclassifier.Classifier."),
+ "C16": ("sibling rule on registration literals, evaluated pattern, push-only rule", " R16.7: every field AddValue sets in a knownValue is set by AddPrecomputedValue too. R16.8: the nonWords pattern, read from the initialiser, matches no letter and no digit. R16.9: nearestMatch and its tasks only push to the queue."),
+ "C17": ("filled-cells rule for returned lists", " R17.11: a list of lists that is allocated with a length and returned is filled on every round of its loop. Shared R13.5."),
+ "C18": ("width rule for utf8.RuneError", " R18.24: a decoded rune is compared with utf8.RuneError only where the width of the same decode is used. R18.12 also evaluates QuoteCharacter for HTML and Markdown. R18.15 and R18.16 follow helpers."),
+ "C20": ("allocated-map rule for returned sets", " R20.15: a set literal that an operation returns has its map stored on every path to the return."),
+}
+for _id, (_t, _l) in ROUND10.items():
+    if _id in CLAIMED:
+        t, text, note, ref = CLAIMED[_id]
+        if _t:
+            t = t + " + " + _t
+        CLAIMED[_id] = (t, text + _l, note, ref)
